@@ -36,7 +36,15 @@
     every canonical spelling alike (`model_and_spec_read_alike`), an element called `div` can be
     selected (`operator_names_are_names`), `self()` and `p:text()` are function calls while `text()`
     is the node test (`function_names_may_be_keywords`), and `1.` is the number 1 while `.5.` and
-    `1.5.` are errors (`trailing_dot_is_a_number`).
+    `1.5.` are errors (`trailing_dot_is_a_number`);
+    for NON-canonical spellings: optional white space does not matter — two padded spellings of the same
+    tokens whose white-space runs are empty at the same places are tokenised, lexed and read alike by
+    the model and by the specification (`whitespace_insensitive_tokens`, `whitespace_insensitive_lexer`,
+    `whitespace_insensitive_model`, `whitespace_insensitive_spec`, `respacing_accepted_input`,
+    `respacing_reads_alike`); the parser does not look beyond a `)` it does not consume
+    (`parser_stops_at_closing_parenthesis`), so parentheses around a whole expression do not change
+    the tree (`redundant_parentheses`); the fuel bound is never the reason for "no parse"
+    (`parser_fuel_adequate`) and abbreviations read as their expansions (`abbreviations_are_expansions`).
   NOT proved: that gogll's generated DFA and GLL engine implement that lexer and parser (differential),
   and completeness of the model parser for non-canonical spellings (differential: flag `ast`).
 -/
@@ -50,6 +58,7 @@ import Proofs.Lemmas.LexSound
 import Proofs.Lemmas.ParseFuel
 import Proofs.Lemmas.ParseAbbrev
 import Proofs.Lemmas.ParseAbbrevDot
+import Proofs.Lemmas.ParseWs
 import Proofs.Lemmas.SpellRender
 
 namespace Xsel.C08
@@ -682,5 +691,86 @@ theorem abbreviations_are_expansions' (c : Cfg) (ts : Toks) (e : Expr) (h : pars
 /-- `a//@b/..` expands to 17 tokens -/
 example : (expand [⟨.ncname ['a'], false⟩, ⟨.p .dslash, true⟩, ⟨.p .at, true⟩, ⟨.ncname ['b'], true⟩,
     ⟨.p .slash, true⟩, ⟨.p .dotdot, true⟩]).length = 17 := by decide
+
+/-! ## what does not matter: optional white space, redundant parentheses -/
+
+/-- **whitespace_insensitive_tokens** — optional white space does not matter to the tokeniser: two
+    padded spellings (`spellPadded`: a white-space run before every token, one at the end) of the same
+    tokens whose runs are empty at the same places (`samePattern`) are tokenised alike.  (`padOk`:
+    the runs are white space, the tokens are ones the lexer produces, and where a run is empty the
+    next character does not extend the token — exactly the inputs the tokeniser accepts,
+    `lexer_accepts_exactly_spellings`.) -/
+theorem whitespace_insensitive_tokens (lc : LexCfg) (a b : List (Chars × Tok)) (ta tb : Chars)
+    (ha : padOk lc a ta = true) (hb : padOk lc b tb = true) (h : samePattern a b) :
+    lexRaw lc (spellPadded a ta) = lexRaw lc (spellPadded b tb) :=
+  lexRaw_ws_insensitive lc a b ta tb ha hb h
+
+/-- … nor to the lexer with its passes -/
+theorem whitespace_insensitive_lexer (lc : LexCfg) (a b : List (Chars × Tok)) (ta tb : Chars)
+    (ha : padOk lc a ta = true) (hb : padOk lc b tb = true) (h : samePattern a b) :
+    lex lc (spellPadded a ta) = lex lc (spellPadded b tb) :=
+  lex_ws_insensitive lc a b ta tb ha hb h
+
+/-- **whitespace_insensitive_model** — … nor to xsel's reading of the string: same verdict (`ok` /
+    `err` / `unsup`) and same tree -/
+theorem whitespace_insensitive_model (a b : List (Chars × Tok)) (ta tb : Chars)
+    (ha : padOk lexModel a ta = true) (hb : padOk lexModel b tb = true) (h : samePattern a b) :
+    parseModel (spellPadded a ta) = parseModel (spellPadded b tb) :=
+  parse_ws_insensitive a b ta tb ha hb h
+
+/-- **whitespace_insensitive_spec** — … nor to XPath's -/
+theorem whitespace_insensitive_spec (a b : List (Chars × Tok)) (ta tb : Chars)
+    (ha : padOk lexSpec a ta = true) (hb : padOk lexSpec b tb = true) (h : samePattern a b) :
+    parseSpec (spellPadded a ta) = parseSpec (spellPadded b tb) :=
+  parseSpec_ws_insensitive a b ta tb ha hb h
+
+/-- **respacing_accepted_input** — the input-level form.  Whenever the tokeniser accepts `cs`, `cs` is a
+    padded spelling `a`, `ta` (`lexer_ignores_nothing`), and every other padded spelling `b`, `tb` of the
+    same tokens with the same pattern of empty runs — `cs` with its white-space runs replaced by other
+    white-space runs, empty ones by empty ones — is tokenised to the same tokens and lexed alike. -/
+theorem respacing_accepted_input (lc : LexCfg) (cs : Chars) (ts : List LTok) (h : lexRaw lc cs = .ok ts) :
+    ∃ (a : List (Chars × Tok)) (ta : Chars), cs = spellPadded a ta ∧ padOk lc a ta = true ∧
+      ∀ (b : List (Chars × Tok)) (tb : Chars), padOk lc b tb = true → samePattern a b →
+        lexRaw lc (spellPadded b tb) = .ok ts ∧ lex lc (spellPadded b tb) = lex lc cs :=
+  lex_ws_respaced_of_ok lc cs ts h
+
+/-- … as a relation between strings (`Respaced lc cs cs'`: both are padded spellings of the same
+    tokens with the same pattern of empty runs): the lexer, the model and the specification answer
+    alike on `cs` and `cs'` -/
+theorem respacing_reads_alike (cs cs' : Chars) :
+    (∀ lc, Respaced lc cs cs' → lex lc cs' = lex lc cs)
+    ∧ (Respaced lexModel cs cs' → parseModel cs' = parseModel cs)
+    ∧ (Respaced lexSpec cs cs' → parseSpec cs' = parseSpec cs) :=
+  ⟨fun lc h => lex_ws_respaced lc cs cs' h, parse_ws_respaced cs cs', parseSpec_ws_respaced cs cs'⟩
+
+/-- `a / b` and `a/b`… are NOT covered by one pattern (a run is empty in one and not in the other): there
+    the `glued` flags differ, and the parser looks at them inside QNames and Numbers only (`gl`).  What
+    the pattern covers: -/
+example : samePattern [([], .ncname ['a']), ([' '], .p .slash), (['\t', ' '], .ncname ['b'])]
+    [([], .ncname ['a']), (['\n'], .p .slash), ([' '], .ncname ['b'])] := ⟨rfl, rfl⟩
+
+/-- **parser_stops_at_closing_parenthesis** — a successful run of the expression parser is not
+    disturbed by what follows a `)` it does not consume: appending any token list `s` that starts with
+    `)` (`Closer s`) leaves the tree and the consumed tokens unchanged.  (False for other
+    continuations: `a` followed by `(` becomes a call.)  The same holds for all twelve parser functions
+    (`Xsel.Syntax.closerExt`). -/
+theorem parser_stops_at_closing_parenthesis (c : Cfg) (f lvl : Nat) (ts r s : Toks) (e : Expr)
+    (hs : Closer s) (h : pBin c f lvl ts = some (e, r)) : pBin c f lvl (ts ++ s) = some (e, r ++ s) :=
+  pBin_closer hs h
+
+/-- **redundant_parentheses** — parentheses around a whole expression do not change the tree: if `ts`
+    parses to `e`, so does `( ts )` — under xsel's syntax, under XPath's, with or without enforced
+    adjacency, whatever the adjacency flags of the two new tokens.  (The converse is false:
+    `( a ) | ( b )` parses, `a ) | ( b` does not.) -/
+theorem redundant_parentheses (c : Cfg) (ts : Toks) (e : Expr) (g1 g2 : Bool)
+    (h : parseToks c ts = some e) :
+    parseToks c (⟨.p .lparen, g1⟩ :: ts ++ [⟨.p .rparen, g2⟩]) = some e :=
+  parse_parens c ts e g1 g2 h
+
+/-- `((a))` reads like `a` -/
+example (c : Cfg) (e : Expr) (h : parseToks c [⟨.ncname ['a'], false⟩] = some e) :
+    parseToks c [⟨.p .lparen, false⟩, ⟨.p .lparen, true⟩, ⟨.ncname ['a'], false⟩,
+      ⟨.p .rparen, true⟩, ⟨.p .rparen, true⟩] = some e :=
+  redundant_parentheses c _ e false true (redundant_parentheses c _ e true true h)
 
 end Xsel.C08
